@@ -21,7 +21,7 @@ PROP = "C20"
 LEVEL = "exploration"
 RULE = (
     "labels: all 52 single-letter and 2704 two-letter labels over string.ascii_letters (exhaustive). core: vlib.gen hex cores "
-    "(2-4 rings, 1-3 designs, 2-5 blocks) with xs types drawn from ascii_letters (two-letter types only when there is a single "
+    "(2-4 rings and 2-5 blocks per assembly in quick, 2-5 rings and 2-7 blocks in thorough, 1-3 designs) with xs types drawn from ascii_letters (two-letter types only when there is a single "
     "environment group), burnups drawn from {0, group bounds exactly, bounds +- small, random}, fuel temperatures from {temperature "
     "bounds exactly, random}, 0-5 burnup bounds x 0-3 temperature bounds (<= 52 groups), per-type settings (representation, "
     "validBlockTypes, averageByComponent, xsTempIsotope). rep: 1-12 blocks, layouts shared / mixed / one member lacking the outer "
@@ -35,19 +35,13 @@ TOLERANCES = {"mean_rel": 1e-9, "mean_abs_scale": 1e-12, "common_rel": 1e-12, "m
               "agree_spread_rel": 1e-13}
 EXHAUSTIVE = {"quick": False, "thorough": False}
 EXHAUSTIVE_PART = "label <-> number conversion is enumerated over all 2756 admissible labels in both tiers; grouping and representatives are sampled"
-FLOORS = {
-    "quick": {"label.roundtrip": 2756, "label.param-setter": 2756, "group.core": 60, "group.block": 1500, "group.boundary-exact-burnup": 150,
-              "group.boundary-exact-temperature": 20, "core.rep": 250, "core.unchanged": 1500, "rep.nd-block-mean": 200, "rep.nd-component-mean": 200,
-              "rep.cylinder-component-mean": 60, "rep.nuclide-temperature": 500, "rep.component-temperature": 150, "rep.minmax": 500, "rep.common-value": 40,
-              "rep.duplicate": 300, "rep.rescale": 300, "rep.burnup": 400, "rep.median": 120, "rep.median-odd": 40, "rep.unchanged": 2500,
-              "rep.filter-active": 200, "rep.fallback-expected": 40},
-    "thorough": {"label.roundtrip": 2756, "label.param-setter": 2756, "group.core": 1200, "group.block": 30000, "group.boundary-exact-burnup": 3000,
-                 "group.boundary-exact-temperature": 400, "core.rep": 5000, "core.unchanged": 30000, "rep.nd-block-mean": 4000, "rep.nd-component-mean": 4000,
-                 "rep.cylinder-component-mean": 1200, "rep.nuclide-temperature": 10000, "rep.component-temperature": 3000, "rep.minmax": 10000,
-                 "rep.common-value": 800, "rep.duplicate": 6000, "rep.rescale": 6000, "rep.burnup": 8000, "rep.median": 2400, "rep.median-odd": 800,
-                 "rep.unchanged": 50000, "rep.filter-active": 4000, "rep.fallback-expected": 800},
-}
-TIMEOUT = {"quick": 600, "thorough": 3600}
+_FLOOR_Q = {"label.roundtrip": 2756, "label.param-setter": 2756, "label.collision": 2756, "group.core": 200, "group.block": 4000, "group.boundary-exact-burnup": 1000,
+            "group.boundary-exact-temperature": 200, "group.temperature-helper": 2000, "core.rep": 1000, "core.unchanged": 4000, "rep.nd-block-mean": 500,
+            "rep.nd-component-mean": 250, "rep.cylinder-component-mean": 200, "rep.nuclide-temperature": 1200, "rep.component-temperature": 1500, "rep.minmax": 2000,
+            "rep.common-value": 150, "rep.duplicate": 400, "rep.rescale": 400, "rep.burnup": 800, "rep.median": 300, "rep.median-odd": 200, "rep.unchanged": 3000,
+            "rep.filter-active": 350, "rep.fallback-expected": 40}
+FLOORS = {"quick": _FLOOR_Q, "thorough": {k: (v if k.startswith("label.") else 15 * v) for k, v in _FLOOR_Q.items()}}
+TIMEOUT = {"quick": 900, "thorough": 7200}
 ASSUMPTIONS = [
     "member values are read with Component.getVolume/getArea/temperatureInC/p.numberDensities and Block.getSymmetryFactor (judged by C02/C03/C08, trusted here)",
     "the block temperature used for temperature grouping is read with armi's getBlockNuclideTemperature helper (cross-checked to 1e-9 against "
@@ -67,8 +61,8 @@ FLUIDS = {"Sodium", "Lead", "LeadBismuth", "Void"}
 def plan(tier, seed):
     q = tier == "quick"
     out = [{"name": "labels", "kind": "labels"}]
-    out += [{"name": "core%d" % i, "kind": "cores", "n": 50 if q else 800} for i in range(7)]
-    out += [{"name": "rep%d" % i, "kind": "reps", "n": 250 if q else 4000} for i in range(8)]
+    out += [{"name": "core%d" % i, "kind": "cores", "n": 40 if q else 500, "max_rings": 4 if q else 5, "max_blocks": 5 if q else 7} for i in range(7)]
+    out += [{"name": "rep%d" % i, "kind": "reps", "n": 200 if q else 3000} for i in range(8)]
     return out
 
 
@@ -346,7 +340,21 @@ def judge_representative(rec, cfg, members, cands, rep, avgT, nucs, w, where, ex
     out["avgT"] = dict(avgT)
 
     # ---------------------------------------------------------------- nuclide temperatures (all representations)
+    def flush_seen():
+        if seen.pop("minmax", False):
+            rec.hit("rep.minmax")
+        if seen.pop("common", False):
+            rec.hit("rep.common-value")
+
+    seen = {}
+
     def nuclide_temperatures(tabs_, wts_, tag):
+        try:
+            return nuclide_temperatures_(tabs_, wts_, tag)
+        finally:
+            flush_seen()
+
+    def nuclide_temperatures_(tabs_, wts_, tag):
         terms = [nuc_terms(t, nucs, TRACE_NUMBER_DENSITY) for t in tabs_]
         num = sum(w_ * t_[0] for w_, t_ in zip(wts_, terms))
         den = sum(w_ * t_[1] for w_, t_ in zip(wts_, terms))
@@ -363,13 +371,13 @@ def judge_representative(rec, cfg, members, cands, rep, avgT, nucs, w, where, ex
                 break
             vals = [t_[0][i] / t_[1][i] for t_ in terms if t_[1][i] > 0]
             if vals:
-                rec.hit("rep.minmax")
+                seen["minmax"] = True
                 lo, hi = min(vals), max(vals)
                 if not (lo - 1e-9 * abs(lo) - 1e-9 <= got <= hi + 1e-9 * abs(hi) + 1e-9):
                     rec.violation("nuclide-temperature/outside-min-max/%s" % tag, "%s: T(%s)=%r outside members' [%r, %r]" % (where, n, got, lo, hi), dict(w, nuclide=n))
                     break
                 if hi - lo <= TOLERANCES["agree_spread_rel"] * abs(hi) and len(vals) > 1:
-                    rec.hit("rep.common-value")
+                    seen["common"] = True
                     if not close(got, lo, rel=TOLERANCES["common_rel"], scale=1.0):
                         rec.violation("nuclide-temperature/common-value-not-kept/%s" % tag, "%s: members agree on T(%s)=%r, representative says %r" % (where, n, lo, got), dict(w, nuclide=n))
                         break
@@ -381,6 +389,12 @@ def judge_representative(rec, cfg, members, cands, rep, avgT, nucs, w, where, ex
 
     # ---------------------------------------------------------------- number densities
     def mean_check(member_vals, weights, got_vals, names, key, what, exact_key=None):
+        try:
+            return mean_check_(member_vals, weights, got_vals, names, key, what, exact_key)
+        finally:
+            flush_seen()
+
+    def mean_check_(member_vals, weights, got_vals, names, key, what, exact_key=None):
         """member_vals: (n_members x n_values); got_vals: n_values."""
         M = np.array(member_vals, dtype=float)
         exp = np.average(M, axis=0, weights=weights)  # the numpy one-liner
@@ -393,13 +407,14 @@ def judge_representative(rec, cfg, members, cands, rep, avgT, nucs, w, where, ex
                     where, what, nm, g, float(exp[j]), " (candidates with differing component counts were averaged by component position)" if exact_key else ""),
                               dict(w, value=nm, got=g, expected=float(exp[j]), member_values=col.tolist()[:12], weights=list(map(float, weights))[:12]))
                 return False
-            rec.hit("rep.minmax")
+            seen["minmax"] = True
             lo, hi = float(col.min()), float(col.max())
             if not (lo - 1e-9 * abs(lo) - 1e-12 * scale <= g <= hi + 1e-9 * abs(hi) + 1e-12 * scale):
                 rec.violation(key + "/outside-min-max", "%s: %s %s = %r outside members' [%r, %r]" % (where, what, nm, g, lo, hi), dict(w, value=nm))
                 return False
             if len(col) > 1 and hi - lo <= TOLERANCES["agree_spread_rel"] * abs(hi):
-                rec.hit("rep.common-value")
+                if hi != 0.0:
+                    seen["common"] = True
                 if not close(g, lo, rel=TOLERANCES["common_rel"], scale=0.0) and not (lo == 0.0 and g == 0.0):
                     rec.violation(key + "/common-value-not-kept", "%s: members agree on %s %s = %r, representative has %r" % (where, what, nm, lo, g), dict(w, value=nm))
                     return False
@@ -527,7 +542,7 @@ def judge_median(rec, cfg, members, cands, tabs, wts, rep, rt, avgT, nucs, w, wh
     if n % 2:
         rec.hit("rep.median-odd")
     okv = {s[(n - 1) // 2], s[n // 2]}  # either middle element of an even-sized set is accepted
-    if vals[i] not in okv:
+    if not any(close(vals[i], m, rel=TOLERANCES["common_rel"]) for m in okv):
         rec.violation("median/not-the-median-member", "%s: representative copies the member with weighted burnup %r; sorted values %s (n=%d)" % (where, vals[i], s, n),
                       dict(w, chosen=vals[i], sorted_values=s))
     if d:
@@ -806,7 +821,8 @@ def do_cores(spec, rec):
         single = nbu == 0 and ntemp == 0
         two_letter = single and rng.random() < .5
         # ---------------- core spec with our own xs types
-        cspec = gen.core_spec(rng, rings=rng.randint(2, 4), symmetry=rng.choice(["third periodic", "third periodic", "full"]), ndesigns=rng.randint(1, 3), nblocks=rng.randint(2, 5),
+        cspec = gen.core_spec(rng, rings=rng.randint(2, spec.get("max_rings", 4)), symmetry=rng.choice(["third periodic", "third periodic", "full"]), ndesigns=rng.randint(1, 3),
+                              nblocks=rng.randint(2, spec.get("max_blocks", 5)),
                               kinds=["fuel", "fuel", "fuel", "shield", "control", "plenum"])
         alphabet = rng.sample(LETTERS, rng.randint(2, 5))
         if two_letter:
@@ -984,8 +1000,8 @@ def do_cores(spec, rec):
             for b in coll:
                 if id(b) not in core_ids:
                     rec.hit("group.blueprint-member")
-                    if b.getMicroSuffix() != key or any(b is x for x in bp_blocks):
-                        rec.violation("grouping/blueprint-member-wrong", "non-core member %s of group %s has suffix %s / is the blueprint's own block" % (b, key, b.getMicroSuffix()), dict(w, group=key))
+                    if b.getMicroSuffix() != key:
+                        rec.violation("grouping/blueprint-member-wrong", "non-core member %s of group %s has suffix %s" % (b, key, b.getMicroSuffix()), dict(w, group=key))
                     tw[id(b)] = words(b.getType())
         d_after_group = None
         for b, a in zip(core_blocks, before_all):
